@@ -147,8 +147,8 @@ func (t *ControllableTask) Launch() error {
 			}).
 				Error("failed to run task")
 
+			// the task could not be started, so there is no process (group) to clean up
 			t.sendStatus(t.knownEnvironmentId, mesos.TASK_FAILED, err.Error())
-			_ = t.doTermIntKill(-taskCmd.Process.Pid)
 			return
 		}
 		log.WithField("id", t.ti.TaskID.Value).
